@@ -27,6 +27,7 @@ package c13
 import (
 	"bytes"
 	"encoding/hex"
+	"encoding/json"
 	"fmt"
 	"net"
 	"runtime"
@@ -186,6 +187,68 @@ func bystander(s *inproc.Server, fd *feed) *pbt.Violation {
 	return nil
 }
 
+// statSnapshot does what RunLoop's ticker and the HTTP API do besides ticking the groups: it takes the statistics of
+// every group (Group.GetStat -> GetStat of every session, whatever state a hostile peer left it in), marshals them as
+// the API and the on_update notification do, and renders the debug line of every group.  It runs in a harness
+// goroutine: a panic is the violation (in production it would be RunLoop's or an API handler's goroutine).
+func statSnapshot(s *inproc.Server, names ...string) *pbt.Violation {
+	if s.Call("stat-snapshot", func() {
+		sgs := s.SM.StatAllGroup()
+		if _, err := json.Marshal(sgs); err != nil {
+			panic(pbt.HarnessError{Msg: "c13: cannot marshal StatAllGroup: " + err.Error()})
+		}
+		for _, sg := range sgs {
+			if g := s.SM.GetGroup(sg.AppName, sg.StreamName); g != nil {
+				_ = g.StringifyDebugStats(10)
+			}
+		}
+		for _, n := range names {
+			if sg := s.SM.StatGroup(n); sg != nil {
+				_, _ = json.Marshal(sg)
+			}
+		}
+		info := s.SM.StatLalInfo()
+		_, _ = json.Marshal(info)
+	}) {
+		return s.PanicViolation()
+	}
+	return nil
+}
+
+// freshPair: a new subscriber and a new publisher on app live / stream name must relay a marker.
+func freshPair(s *inproc.Server, name, sig, what string) *pbt.Violation {
+	sub := lalclient.NewRtmpSub(s, "live", name)
+	if err := sub.JoinErr(); err != nil {
+		if v := s.PanicViolation(); v != nil {
+			return v
+		}
+		return pbt.V(sig+"/subscribe-failed", "a healthy subscriber could not join %s: %v", what, err)
+	}
+	defer sub.Close()
+	p := lalclient.NewPublisher(s, "live", name, 0)
+	if p.Err != nil {
+		if v := s.PanicViolation(); v != nil {
+			return v
+		}
+		return pbt.V(sig+"/publish-failed", "a healthy publisher could not publish %s: %v", what, p.Err)
+	}
+	defer p.Close()
+	_ = p.Send(gen.TypeAudio, 1, probeMarker, 0)
+	if sub.WaitFor(func(r lalclient.Rec) bool { return bytes.Equal(r.Payload, probeMarker) }, lalclient.DeliverTimeout) < 0 {
+		if v := s.PanicViolation(); v != nil {
+			return v
+		}
+		return pbt.V(sig+"/no-relay", "a healthy publisher/subscriber pair no longer relays %s", what)
+	}
+	return nil
+}
+
+// republish: once the hostile session is gone, the stream name it used must work for a healthy publisher and
+// subscriber (no state left behind that blocks the name: input slot, codec information, waiting flags ...).
+func republish(s *inproc.Server, name string) *pbt.Violation {
+	return freshPair(s, name, "name-broken-after-hostile-session", "the stream name the hostile session had used ("+name+")")
+}
+
 // note counts a run-time observation into the evidence file (counters).  pbt's counters are process-wide and are
 // snapshotted by every sub-property that finishes later, so every Test starts by taking back what was counted before it.
 var (
@@ -210,6 +273,9 @@ func resetNotes() {
 }
 
 func probe(s *inproc.Server, fd *feed) *pbt.Violation {
+	if v := statSnapshot(s, "c13hostile", "c13feed", pullStream, gbStream); v != nil {
+		return v
+	}
 	if v := bystander(s, fd); v != nil {
 		return v
 	}
